@@ -246,7 +246,14 @@ def run_case(case):
     model = copy.deepcopy(case["value"])
     pool = []  # dicts: obj, node, model, where, path_in_parent(optional)
     snodes = site_nodes(node)
-    aliases = {}  # repr(slot path) -> (path, pool index, nested path)
+    # physical slot -> (parent model object kept alive, pool index, nested path).  A slot is identified by the IDENTITY of
+    # its parent container in the model (shared referents are shared Python objects) plus its last step, not by the
+    # path: one slot can be reached through several paths once referents are shared
+    aliases = {}
+
+    def slot_key(path):
+        _, parent = mat.model_get(spec, model, path[:-1])
+        return (id(parent), repr(path[-1])), parent
     nontrivial = False
     bound_nonnull = any(v is not None for v in _slot_values(spec, model))
     wrote_through = False
@@ -310,7 +317,11 @@ def run_case(case):
             d = tg.first_diff(tspec, tval, dec)
             if d:
                 return fail("target_value", f"{step}: slot {path} -> {tgt}: decoded from bytes: {d}", "", labels)
-        for key, (path, pi, npath) in list(aliases.items()):
+        for path, rspec in mat.ref_slots(spec, model):
+            key, _parent = slot_key(path)
+            if key not in aliases:
+                continue
+            _, pi, npath = aliases[key]
             h = sut(lambda: mat.obj_get(holder, node, path + [["d"]])[0])
             if is_raised(h) or h is None:
                 return fail("alias_read", f"{step}: aliased slot {path}: {h}", "", labels)
@@ -366,12 +377,11 @@ def run_case(case):
             parent = sut(slot_parent, path, op["via"], op["i"])
             if is_raised(parent):
                 return fail("reach_raised", f"{step}: {parent}", parent.key, labels)
-            key = repr(path)
-            # binding a slot invalidates aliases recorded at or below it
+            key, key_parent = slot_key(path)
+
             def drop_aliases():
-                for k2, (p2, _, _) in list(aliases.items()):
-                    if p2[: len(path)] == path:
-                        del aliases[k2]
+                aliases.pop(key, None)  # this physical slot is rebound (slots inside the old referent stay what they are)
+
             if kind == "bind_null":
                 r = sut(mat.obj_set, parent[0], parent[1], path[-1:], None)
                 if is_raised(r):
@@ -435,7 +445,7 @@ def run_case(case):
                 if want_A:
                     shared = smodel  # the very same model value: alias
                     mat.model_set(spec, model, path, [mi, shared] if rspec["k"] == "unionref" else shared)
-                    aliases[key] = (path, pi, npath)
+                    aliases[key] = (key_parent, pi, npath)
                     if int(h._offset) != int(sobj._offset) or h._buffer is not A:
                         return fail("alias_identity", f"{step}: slot {path} bound to the object at {sobj._offset} of its own buffer reads back an object at {h._offset}", "nested" if npath else "", labels)
                     labels.add("op:bind_existing_nested" if npath else "op:bind_existing")
@@ -478,9 +488,7 @@ def run_case(case):
                 if r2:
                     return r2
                 continue
-            for k2, (p2, _, _) in list(aliases.items()):
-                if p2[: len(path)] == path:
-                    del aliases[k2]
+            aliases.pop(slot_key(path)[0], None)
             mat.model_set(spec, model, path, copy.deepcopy(val))
             h = sut(lambda: mat.obj_get(holder, node, path + [["d"]])[0])
             if is_raised(h) or h is None:
@@ -510,7 +518,7 @@ def run_case(case):
             mat.model_set(spec, model, path, new)
             labels.add("op:write_through_ref")
             wrote_through = True
-            if any(repr(path[: n]) in aliases for n in range(len(path))):
+            if any(slot_key(path[: n])[0] in aliases for n in range(1, len(path)) if path[n - 1][0] != "d"):
                 labels.add("aliased_write_seen")
         elif kind == "write_orig":
             if not pool:
